@@ -105,6 +105,19 @@ const E_FILE_LEVEL = {
 const E_SUFFIXES = ['__datadog_p_0', '__datadog_p_1', '__datadog_p_9', '__datadog_p_x', '__datadog_p_', '__datadog_q_0', '__datadog_', '__datadog_p_00']
 const E_OPS = { t0: 'a + b', t2: 'a + f()', t4: 'a.concat(f(), o.p)' }
 
+// family E: every placement of a reserved-prefix identifier x spelling x operation (shared with C08)
+function familyE () {
+  const r = enumerate([{ name: 'place', symbols: Object.keys(E_PLACEMENTS).concat(Object.keys(E_FILE_LEVEL)), free: true }, { name: 'name', symbols: E_SUFFIXES, free: true }, { name: 'op', symbols: Object.keys(E_OPS), free: true }], {})
+  return {
+    leaves: r.leaves.map((l) => {
+      const N = l.pick.name; const op = E_OPS[l.pick.op]
+      const code = E_PLACEMENTS[l.pick.place] ? G.SCOPES.sloppy(E_PLACEMENTS[l.pick.place].replace(/\bN\b/g, N).replace(/OP/g, op)) : E_FILE_LEVEL[l.pick.place]('N', op).replace(/\bN\b/g, N)
+      return { fam: 'E', key: 'E¦' + l.pick.place + '¦' + N + '¦' + l.pick.op, code, place: l.pick.place, name: N, config: 'FULL' }
+    }),
+    stats: r.stats
+  }
+}
+
 async function build (tier) {
   let leaves = []
   let stats = { states: 1, transitions: 0 }
@@ -117,17 +130,7 @@ async function build (tier) {
     const r2 = enumerate([{ name: 'op', symbols: F.REP_OPS.map((o) => o.tpl), free: true }, { name: 'sctx', symbols: ['expr', 'while_body', 'class_method', 'closure_in_loop', 'generator'], free: true }], {})
     add({ leaves: r2.leaves.map((l) => ({ fam: 'D', key: 'Dh¦' + l.pick.op + '¦' + l.pick.sctx, code: G.render({ op: l.pick.op, exprctx: '@@', stmtctx: l.pick.sctx, scope: 'sloppy' }), shape: 'hook-reentry:' + l.pick.sctx, reenter: true, config: 'FULL' })), stats: r2.stats })
   }
-  {
-    const r = enumerate([{ name: 'place', symbols: Object.keys(E_PLACEMENTS).concat(Object.keys(E_FILE_LEVEL)), free: true }, { name: 'name', symbols: E_SUFFIXES, free: true }, { name: 'op', symbols: Object.keys(E_OPS), free: true }], {})
-    add({
-      leaves: r.leaves.map((l) => {
-        const N = l.pick.name; const op = E_OPS[l.pick.op]
-        const code = E_PLACEMENTS[l.pick.place] ? G.SCOPES.sloppy(E_PLACEMENTS[l.pick.place].replace(/\bN\b/g, N).replace(/OP/g, op)) : E_FILE_LEVEL[l.pick.place]('N', op).replace(/\bN\b/g, N)
-        return { fam: 'E', key: 'E¦' + l.pick.place + '¦' + N + '¦' + l.pick.op, code, place: l.pick.place, name: N, config: 'FULL' }
-      }),
-      stats: r.stats
-    })
-  }
+  add(familyE())
   return { leaves, stats, bound: { static_families: 'A,B(k=' + (tier === 'thorough' ? 2 : 1) + '),C,G', d_shapes: Object.keys(D_SHAPES).length, e_placements: Object.keys(E_PLACEMENTS).length + Object.keys(E_FILE_LEVEL).length, e_names: E_SUFFIXES.length }, alphabets: { d_shapes: Object.keys(D_SHAPES), e_placements: Object.keys(E_PLACEMENTS).concat(Object.keys(E_FILE_LEVEL)), e_names: E_SUFFIXES } }
 }
 
@@ -201,6 +204,7 @@ async function check (leaf, resps, ctx) {
 }
 
 module.exports = {
+  familyE,
   id: 'C06',
   build,
   requests,
